@@ -135,12 +135,53 @@ def encode_and_query(ref, rel, kind, drop_action=None):
     fp.rule(bad_core(r, i), [reach(r, i), badcore(r, i)])
     fp.rule(bad_over(r, i), [reach(r, i), overI(i)])
     out = {"facts": nfacts, "queries": {}}
+    qrels = []
     for name, rl in (("missing", bad_missing), ("core", bad_core), ("over", bad_over)):
-        res = fp.query(z3.Exists([r, i], rl(r, i)))
+        q = z3.Function("q_" + name, B)
+        fp.register_relation(q)
+        fp.rule(q(), [rl(r, i)])
+        qrels.append((name, q))
+    smt2 = "(set-option :fp.engine datalog)\n" + fp.to_string([]) + "\n" + "".join("(query q_%s)\n" % n for n, _ in qrels)
+    for name, q in qrels:
+        res = fp.query(q())
         out["queries"][name] = str(res)
+    out["second_solver"] = second_opinion(smt2, [n for n, _ in qrels])
     # reachable pairs (for evidence): count via native product walk
     out["solver_s"] = time.perf_counter() - t0
     return out
+
+
+Z3_OLD = "/usr/bin/z3"
+
+
+def second_opinion(smt2, names):
+    """The same Datalog program and queries, as SMT-LIB2 text, decided by the independent z3 4.8.12 binary.
+    Returns {query: verdict} or {"skipped": reason}.  Any `(error` line makes the answer inconclusive."""
+    import os
+    import subprocess
+    import tempfile
+
+    if not os.path.exists(Z3_OLD):
+        return {"skipped": "no %s" % Z3_OLD}
+    fd, path = tempfile.mkstemp(suffix=".smt2", prefix="vp-c05-")
+    try:
+        with os.fdopen(fd, "w") as f:
+            f.write(smt2)
+        p = subprocess.run([Z3_OLD, path], capture_output=True, text=True, timeout=60)
+        txt = p.stdout + p.stderr
+        if "(error" in txt:
+            return {"skipped": "solver error: %s" % txt.strip()[:200]}
+        lines = [l.strip() for l in p.stdout.splitlines() if l.strip() in ("sat", "unsat", "unknown")]
+        if len(lines) != len(names):
+            return {"skipped": "unexpected output: %s" % txt.strip()[:200]}
+        return dict(zip(names, lines))
+    except Exception as e:  # noqa
+        return {"skipped": repr(e)}
+    finally:
+        try:
+            os.remove(path)
+        except OSError:
+            pass
 
 
 def native_product(ref, rel, kind):
